@@ -432,6 +432,10 @@ func init() {
 			in.assert(args[0].(*Term), args[1].(Str).s)
 			return nil
 		},
+		upkg + ".verifAssertKF": func(in *Interp, fn *ssa.Function, args []Value) Value {
+			in.assertKF(args[0].(*Term), args[1].(Str).s, args[2].(Str).s, args[3].(*Term))
+			return nil
+		},
 		upkg + ".verifReach": func(in *Interp, fn *ssa.Function, args []Value) Value {
 			in.reached = append(in.reached, args[0].(Str).s)
 			return nil
@@ -537,6 +541,31 @@ func (in *Interp) assert(c *Term, id string) {
 		in.onViolation(in, "assert", id, neg)
 	}
 	// continue under the assertion (violations, if any, were recorded by the hook)
+	if c.IsFalse() {
+		in.end("violation", "assertion %s definitely false", id)
+	}
+	in.addPC(c)
+}
+
+// assertKF is assert with a carve-out for an open known finding: violations where pred holds are
+// reported as the known finding (tag), violations where it does not hold are ordinary violations.
+func (in *Interp) assertKF(c *Term, id, tag string, pred *Term) {
+	if _, open := in.openKF[tag]; !open {
+		in.assert(c, id)
+		return
+	}
+	in.asserts++
+	if c.IsTrue() {
+		in.folded++
+		return
+	}
+	neg := in.tt.Not(c)
+	if in.onViolation != nil {
+		in.onViolation(in, "assert", id, in.tt.And(neg, in.tt.Not(pred)))
+		in.kfTag = tag
+		in.onViolation(in, "known", id, in.tt.And(neg, pred))
+		in.kfTag = ""
+	}
 	if c.IsFalse() {
 		in.end("violation", "assertion %s definitely false", id)
 	}
